@@ -1337,6 +1337,16 @@ type coordTierPlan struct {
 }
 
 func coordPlan() coordTierPlan {
+	// VERIF_COORD_PLAN="mem:5,codec:4" overrides the tier plan (experiments only)
+	if v := os.Getenv("VERIF_COORD_PLAN"); v != "" {
+		var plan coordTierPlan
+		for _, part := range strings.Split(v, ",") {
+			f := strings.Split(part, ":")
+			d, _ := strconv.Atoi(f[1])
+			plan.Runs = append(plan.Runs, coordDefaultCfg(f[0], d))
+		}
+		return plan
+	}
 	if vh.Thorough() {
 		deep := coordDefaultCfg("mem", 7)
 		deep.MaxIssued = 4
